@@ -200,7 +200,11 @@ class locked_index:
             f = SHA1Writer(self._file)
             write_index_dict(f, self._index._byname)
         except BaseException:
+            # Discard the partly written lock file, but do not pretend that
+            # the index was updated: the caller would acknowledge a change
+            # that no read is going to see.
             self._file.abort()
+            raise
         else:
             f.close()
 
